@@ -30,7 +30,8 @@ REQUIRE = {'dfxp_roundtrips': 100, 'webvtt_writes': 100, 'webvtt_roundtrips': 30
            'level_lang': 20, 'level_caption': 20, 'level_span': 20, 'level_node': 10,
            'webvtt_split_captions': 20, 'webvtt_settings_compared': 200, 'alignment_pairs_seen': 15,
            'padding_with_start_ne_end': 20, 'webvtt_language_level_only': 10,
-           'webvtt_roundtrips_with_reader_options': 20}
+           'webvtt_roundtrips_with_reader_options': 20, 'dfxp_sets_with_blank_layouts': 100,
+           'webvtt_captions_whose_last_nodes_inherit_their_layout': 100}
 
 
 def rand_pct_layout(rng, need_origin=False):
@@ -73,6 +74,18 @@ def cases(ctx):
             spec = capsets.rich_set(rng, tag, layout_fn=rand_pct_layout, weird_names=False, p_layout=0.5,
                                     nlang=rng.choice([1, 1, 2]), levels=('lang', 'caption', 'node', 'span'))
             _strip_styles(spec)
+            if rng.random() < 0.3:
+                # layouts that are present but blank (every part absent) count as no layout: the next level shows
+                blank = lambda: {'origin': None, 'extent': None, 'padding': None, 'alignment': None}
+                for l in spec['langs']:
+                    for c in l['captions']:
+                        if c.get('layout') is None and rng.random() < 0.6:
+                            c['layout'] = blank()
+                            spec['blank_layouts'] = True
+                        for n in c['nodes']:
+                            if n[0] == 't' and len(n) == 2 and rng.random() < 0.3:
+                                n.append(blank())
+                                spec['blank_layouts'] = True
             yield {'kind': 'dfxp', 'set': spec,
                    'opts': {'relativize': rng.random() < 0.7, 'fit_to_screen': rng.random() < 0.5}}
         elif r < 0.85:
@@ -134,6 +147,18 @@ def _webvtt_shape(spec, rng, fn):
                         k += 1
                     elif n[0] == 'b':
                         del n[1:]
+                if len(texts) >= 2 and rng.random() < 0.3:
+                    # the last text nodes have no layout of their own (absent, or present but blank) and fall
+                    # back to the caption's / the language's: they are a group - a cue - of their own
+                    cut = rng.randrange(1, len(texts))
+                    blank = rng.random() < 0.4
+                    for n in [n for n in c['nodes'] if n[0] == 't'][cut:]:
+                        del n[2:]
+                        if blank:
+                            n.append({'origin': None, 'extent': None, 'padding': None, 'alignment': None})
+                    if rng.random() < 0.7:
+                        c['layout'] = fn(rng)
+                    c['inheriting_tail'] = True
 
 
 def _eff(node_lay, cap, lang, set_lay, use_set=True):
@@ -245,6 +270,8 @@ def check(case, ctx):
     ctx.counters['alignment_pairs_seen'] = max(ctx.counters.get('alignment_pairs_seen', 0), 0) + len(pairs)
     if case['kind'] == 'dfxp':
         ctx.count('dfxp_roundtrips')
+        if spec.get('blank_layouts'):
+            ctx.count('dfxp_sets_with_blank_layouts')
         try:
             out = W.make_writer('DFXPWriter', case['opts']).write(cs)
             back = pycaption.DFXPReader().read(out)
@@ -296,6 +323,8 @@ def check(case, ctx):
         return fails[:4]
     # WebVTT mapping
     ctx.count('webvtt_writes')
+    if any(c.get('inheriting_tail') for l in spec['langs'] for c in l['captions']):
+        ctx.count('webvtt_captions_whose_last_nodes_inherit_their_layout')
     lang = spec['langs'][0]
     if not any(c.get('layout') or any(len(n) > 2 and n[2] for n in c['nodes'] if n[0] == 't')
                for c in lang['captions']) and lang.get('layout'):
